@@ -390,3 +390,53 @@ def test_c05_wide_table_in_a_caption_keeps_its_rows_in_a_table():
     t, errs = _clean(("intro " * 60) + "\n\n<table><caption>cap " + wide + "</caption><tr><td>x</td></tr></table>\n")
     for row in [n for n in t.allchildren() if n.__class__.__name__ == "Row"]:
         assert row.parent.__class__.__name__ == "Table"
+
+
+# ---------------------------------------------------------------- fixes of wave 9
+def _words(tree):
+    return [w for n in tree.allchildren() if n.__class__.__name__ == "Text" for w in (n.caption or "").split()]
+
+
+def test_c07_block_with_the_same_text_as_an_earlier_one_survives_the_nesting_repair():
+    from mwlib.parser import advtree, treecleaner
+    t = _parse("== Heading ==\n\nalpha one\n: same words\nbeta two\n: same words\ngamma three\n")
+    advtree.build_advanced_tree(t)
+    before = _words(t)
+    treecleaner.TreeCleaner(t).clean_all()
+    assert _words(t) == before
+
+
+def test_c06_bordered_table_in_a_caption_does_not_break_split_table_to_columns():
+    t, errs = _clean(("word " * 60) + '\n\n<table><caption><table class="wikitable"><tr><td>x</td><td>y</td></tr></table></caption><tr><td>a</td><td>b</td></tr></table>\n')
+    assert not errs
+
+
+def test_c08_caption_survives_when_the_only_cell_held_a_gallery():
+    t, errs = _clean("{|\n|+ tabcapword\n|-\n|\n<gallery>\nFile:Pic.png|capone\n</gallery>\n|}\n")
+    assert not errs and "tabcapword" in _text(t) and "capone" in _text(t)
+
+
+def test_c01_pages_tag_with_named_bounds_parses_without_a_wiki_database():
+    from mwlib.parser.refine import uparser
+    assert uparser.parse_string(title="T", raw='<pages from="a" to="b"/>', lang="en").__class__.__name__ == "Article"
+
+
+def test_c01_heading_line_across_table_cells_parses():
+    t = _parse("{|\n== a || b ==\n<hiero>x</hiero>\n== c || d ==\n|}")
+    nodes = list(t.allchildren())
+    assert len({id(n) for n in nodes}) == len(nodes)
+
+
+def test_c11_contributors_are_found_through_a_chain_of_redirects():
+    from mwlib.core import nuwiki
+
+    class FakeNu:
+        authors = {"Alpha": ["Ann", "Bob"], "Rd": None, "Rd2": None}
+        redirects = {"Rd": "Rd2", "Rd2": "Alpha"}
+    a = nuwiki.Adapt.__new__(nuwiki.Adapt)
+    a.nuwiki = FakeNu()
+    a.redirects = FakeNu.redirects
+    from mwlib.core import nshandling
+    from mwlib.network.siteinfo import get_siteinfo
+    a.nshandler = nshandling.NsHandler(get_siteinfo("en"))
+    assert a.get_authors("Rd") == ["Ann", "Bob"]
